@@ -1,25 +1,157 @@
-"""C04 — rule normalisation never changes what the rules mean."""
+"""C04 — rule normalisation never changes what the rules mean.
+
+prove : lean/DaeVerif/C04 (Props = property theorems, axioms audited)
+tie   : harness/overlay/control/c04_test.go        traffic / DNS request / DNS response:
+          real optimizer pipeline -> real builder -> real matcher, per packet, against the model
+        harness/overlay/component/daedns/c04_test.go internal selectors sub/node/subnode
+        every line carries  opt= (normalised AST)  or  dec= (compiled decision) spec= (first match
+        over the rules as written); impl and model lines must be identical and dec must equal spec.
+"""
 import json, os
+from concurrent.futures import ThreadPoolExecutor
 from verifkit import read_lines
 
 REQUIRED = [
+    "DaeVerif.C04.Props.traffic_compiled_decides_as_written",
+    "DaeVerif.C04.Props.dns_request_compiled_decides_as_written",
+    "DaeVerif.C04.Props.dns_response_compiled_decides_as_written",
+    "DaeVerif.C04.Props.internal_selectors_decide_as_written_partial",
+    "DaeVerif.C04.Props.internal_selectors_full_is_false",
+    "DaeVerif.C04.Props.alias_and_geodata_preserve_meaning",
+    "DaeVerif.C04.Props.geodata_preserves_meaning",
+    "DaeVerif.C04.Props.sorting_conditions_preserves_meaning",
+    "DaeVerif.C04.Props.sorting_values_preserves_meaning",
+    "DaeVerif.C04.Props.merging_neighbours_preserves_meaning",
+    "DaeVerif.C04.Props.merge_and_sort_preserves_meaning",
+    "DaeVerif.C04.Props.dedup_preserves_meaning",
+    "DaeVerif.C04.Props.compiled_program_is_first_match",
+    "DaeVerif.C04.Props.split_is_category_guard",
+    "DaeVerif.C04.Props.merge_of_negated_neighbours_unsound",
+    "DaeVerif.C04.Props.merge_needs_parameters_or_false_reading",
+    "DaeVerif.C04.Props.ex_pipeline",
+    "DaeVerif.C04.Props.ex_compiled",
+]
+
+STREAMS = [
+    # (stream name, package dir, harness file, test name)
+    ("c04", "control", "control/c04_test.go", "TestVerifC04"),
+    ("c04sel", "component/daedns", "component/daedns/c04_test.go", "TestVerifC04Sel"),
 ]
 
 
+def fields(line):
+    return dict(kv.split("=", 1) for kv in line.split(" ") if "=" in kv and not kv.startswith("opt="))
+
+
+def analyse(ctx, name, agg):
+    """diff impl/model line by line, check dec == spec on both sides, build replays."""
+    ops_p, impl_p, model_p, descr_p = (os.path.join(ctx.out, f"{name}.{e}") for e in ("ops", "impl", "model", "descr"))
+    mism = ctx.diff_streams(ops_p, impl_p, model_p, name)
+    ops, impl, model = read_lines(ops_p), read_lines(impl_p), read_lines(model_p)
+    descr = [json.loads(l) for l in read_lines(descr_p)]
+    known = {k.get("key"): k for k in ctx.known}
+    bad_lines = {ln for ln, _, _, _ in mism if ln > 0}
+    if mism and mism[0][0] == 0:
+        ctx.report(f"{name}: {mism[0][1]}", {"stream": name})
+    cur = None           # index of the current P line
+    reported_prog = set()
+    n = min(len(ops), len(impl), len(model), len(descr))
+    for i in range(n):
+        d = descr[i]
+        if d.get("kind") == "P":
+            cur = i
+            agg["programs"] += 1
+            if d.get("changed"):
+                agg["programs_changed"] += 1
+        elif d.get("kind") == "x":
+            ctx.report(f"the parser accepts a form the model assumes it rejects: {d.get('text')}", {"stream": name, "line": i + 1, "descr": d})
+            continue
+        why = None
+        if (i + 1) in bad_lines:
+            why = "implementation differs from the proved model"
+        if ops[i].startswith("q "):
+            agg["evaluations"] += 1
+            fi = fields(impl[i])
+            pd = descr[cur] if cur is not None else {}
+            if pd.get("changed"):
+                agg["distinct"].add((cur, ops[i]))
+            agg["decisions"].add(fi.get("dec"))
+            if fi.get("dec") not in ("err", None) and fi.get("dec") != fi.get("spec"):
+                why = "the compiled program decides differently from the rules as written"
+        if why is None:
+            continue
+        if cur in reported_prog and len(ctx.violations) >= 6:
+            continue
+        reported_prog.add(cur)
+        pd = descr[cur] if cur is not None else {}
+        tag = pd.get("tag", "")
+        what = f"{why} [{pd.get('backend', name)}] rules: {' ; '.join(pd.get('text', []))} ; fallback: {pd.get('fallback')}"
+        if ops[i].startswith("q "):
+            what += f" | input: {d.get('pkt')} | real code: {impl[i]} | model: {model[i]}"
+        else:
+            what += f" | normalised by real code: {impl[i][:300]} | by model: {model[i][:300]}"
+        if tag in known and known[tag].get("kind") == "fixed":
+            what = f"REGRESSION of fix {known[tag].get('commit')} ({tag}): " + what
+        ctx.report(what, {
+            "stream": name, "line": i + 1, "backend": pd.get("backend"), "tag": tag,
+            "rules_as_written": pd.get("text"), "fallback": pd.get("fallback"), "input": d.get("pkt"),
+            "impl": impl[i], "model": model[i], "op_program": ops[cur] if cur is not None else None, "op": ops[i],
+            "replay": "VERIF_SEED=%d ./check C04 %s   # deterministic; line %d of .cache/run/C04-%s-%d/%s.ops"
+                      % (ctx.seed, ctx.tier, i + 1, ctx.tier, ctx.seed, name)})
+    return ops
+
+
 def run(ctx):
-    ctx.prove(["DaeVerif.C04.Props"], ["DaeVerif.C04.Props"], ["DaeVerif/C04/*.lean"], extra_targets=["c04drv"])
+    ctx.trusted += [
+        "leaf matching (does ONE value of a function match a packet/question) is not modelled: it is the parameter `atom` of the theorems; the harness obtains it from the real builder+matcher on one-value programs (that a function's values are alternatives — any-of — is what this tie checks for every leaf kind; per-leaf correctness is C01/C11/C12)",
+        "geodata file decoding (pkg/geodata) is the parameter `Geo`; the harness reads the content through the real DatReaderOptimizer on generated .dat files",
+        "the model's input assumption ParserWF (no f(), no rule without a function) is what config_parser enforces; the harness re-checks it on every run",
+        "the OR/AND/NOT scan is DaeVerif.RuleScan.scanAux (shared with C01/C07, tied to RoutingMatcher.Match there); here the real Match functions are exercised end to end",
+    ]
+    # prove and build the two harness binaries side by side (3 jobs), then run drivers + analysis
+    here = os.path.dirname(os.path.dirname(os.path.abspath(__file__)))
+    streams = [s for s in STREAMS if os.path.exists(os.path.join(here, "harness", "overlay", s[2]))]
+
+    def harness(stream):
+        name, pkg, hfile, test = stream
+        binp = ctx.go_test_build(pkg, [hfile], name, pkgname=os.path.basename(pkg))
+        if not binp:
+            return None
+        return ctx.run_harness(binp, test)
+
+    with ThreadPoolExecutor(max_workers=3) as ex:
+        fprove = ex.submit(ctx.prove, ["DaeVerif.C04.Props"], ["DaeVerif.C04.Props"], ["DaeVerif/C04/*.lean"], ["c04drv"])
+        fh = [ex.submit(harness, s) for s in streams]
+        fprove.result()
+        results = [f.result() for f in fh]
     ctx.required_theorems(REQUIRED)
-    binp = ctx.go_test_build("control", ["control/c04_test.go"], "c04")
-    if not binp:
-        return 2
-    rc, out = ctx.run_harness(binp, "TestVerifC04")
-    ops, impl, model = (os.path.join(ctx.out, "c04." + e) for e in ("ops", "impl", "model"))
-    if rc != 0 or not os.path.exists(ops):
-        ctx.say("HARNESS-FAILED", out[-3000:])
-        return 2
-    if not ctx.driver("c04drv", ops, model):
-        ctx.proof_failures.append("model driver c04drv failed to run")
-    mism = ctx.diff_streams(ops, impl, model, "c04")
-    for ln, op, im, mo in mism[:10]:
-        ctx.report(f"line {ln}: impl `{im[:200]}` model `{mo[:200]}`", {"line": ln, "op": op, "impl": im, "model": mo})
-    return ctx.finish(rule="", evaluations=len(read_lines(ops)), distinct=0)
+
+    agg = {"programs": 0, "programs_changed": 0, "evaluations": 0, "distinct": set(), "decisions": set()}
+    sample_ops, dist = [], {}
+    for (name, pkg, hfile, test), res in zip(streams, results):
+        if res is None:
+            return 2
+        rc, out = res
+        ops_p, model_p = os.path.join(ctx.out, name + ".ops"), os.path.join(ctx.out, name + ".model")
+        if rc != 0 or not os.path.exists(ops_p):
+            ctx.say("HARNESS-FAILED", out[-3000:])
+            return 2
+        if not ctx.driver("c04drv", ops_p, model_p):
+            ctx.proof_failures.append(f"model driver c04drv failed to run on {name}")
+        ops = analyse(ctx, name, agg)
+        stats = json.load(open(os.path.join(ctx.out, name + ".stats.json")))
+        dist.update({f"{name}:{k}": v for k, v in stats["counters"].items()})
+        sample_ops += stats["samples"][:4]
+        sample_ops += [o[:400] for o in ops[:2]]
+    ctx.samples = sample_ops
+    ctx.cov["input_distribution"] = dist
+    ctx.cov["programs"] = agg["programs"]
+    ctx.cov["programs_changed_by_normalisation"] = agg["programs_changed"]
+    ctx.cov["distinct_decisions_seen"] = len(agg["decisions"])
+    ctx.assumptions = [
+        "rule lists, geodata and packets/questions are generated (seeded, neighbour-heavy runs of rules sharing function/alias twin, negation and outbound; repeated and overlapping values; mixed keys; near-miss outbounds); the witness programs of the four C04 fix commits are replayed first on every run",
+    ]
+    return ctx.finish(
+        rule="one evaluation = one (rule list, geodata, packet or DNS question or selector input) triple pushed through the real pipeline+builder+matcher and through the model; "
+             "distinct_nontrivial = distinct (program, atom-truth-vector) pairs whose program was actually changed by merge/sort/dedup",
+        evaluations=agg["evaluations"], distinct=len(agg["distinct"]))
